@@ -21,7 +21,10 @@
 // from-imported - and u, and call them after the include: in every loop iteration, in the block, after the
 // macro call, in the parent after the overridden block) x relative names (none; the tag names its target as ./x,
 // ../x, ./d/x, ../../x from a template at top level or in a sub-directory, the denoted template being fine,
-// missing, unparsable, unloadable or failing - only a missing one may be swallowed by ignore missing). Every
+// missing, unparsable, unloadable or failing - only a missing one may be swallowed by ignore missing) x loader
+// arrangement (templates registered on the engine; or everything behind a ChainLoader of 1-3 members, the one member
+// that has the target - and may fail to deliver it - being first, in the middle or last). A further family
+// (nullchain.go) enumerates include chains of depth 1-3 with a NULL binding of a variable on the way. Every
 // program is rendered by the real engine and
 // compared with the reference model of model.go (transcribed from the property statement).
 package main
@@ -110,7 +113,19 @@ type cas struct {
 	// relative name (rel == 0: the older cases, every template at top level and named as it is registered): the
 	// include under test names its target relative to the directory of the template it is written in, see relForms
 	rel int
+	// loader arrangement (ld == 0: the older cases - templates registered on the engine, the unloadable ones behind two
+	// loaders of the engine): the engine's only loader is a ChainLoader, see ldForms
+	ld int
 }
+
+// ldForm: the engine has ONE loader, a twig.ChainLoader with `size` members. Exactly one member - the one at position
+// pos - has the target of the include under test, in whatever state the case says (its source, a source that does
+// not parse, or a load that fails with an I/O error; for a missing target no member has it). Every other template of
+// the case lives in the member after it (cyclically; the same member when there is only one), a third member holds an
+// unrelated template. No template is held by two members.
+type ldForm struct{ size, pos int }
+
+var ldForms = []ldForm{{}, {1, 0}, {2, 0}, {2, 1}, {3, 0}, {3, 1}, {3, 2}}
 
 // relForm: the template that holds the include under test is registered as <holderDir>/main (or <holderDir>/mid for
 // the nested routes), the tag names its target as <written><target>, and the target - in whatever state the case
@@ -225,6 +240,9 @@ func (c cas) key() string {
 	}
 	if c.hist != 0 {
 		k += fmt.Sprintf("/h%d.%d.%d", c.hist, c.hEng, c.hOpts)
+	}
+	if c.ld != 0 {
+		k += fmt.Sprintf("/l%d.%d", ldForms[c.ld].size, ldForms[c.ld].pos)
 	}
 	return k
 }
@@ -621,31 +639,102 @@ func newEngine() *twig.Engine {
 	return e
 }
 
-// register prints the templates and registers them (sorted by name); "" = all of them parsed.
-func register(e *twig.Engine, tmpls map[string]*tmpl, padNames []string, padded bool, sources map[string]string) string {
-	names := make([]string, 0, len(tmpls))
+// printAll prints the templates (sorted by name): src is what the engine gets, sources what a report shows (the
+// comment padding abbreviated).
+func printAll(tmpls map[string]*tmpl, padNames []string, padded bool, sources map[string]string) (names []string, src map[string]string) {
+	names = make([]string, 0, len(tmpls))
 	for n := range tmpls {
 		names = append(names, n)
 	}
 	sort.Strings(names)
+	src = map[string]string{}
 	for _, n := range names {
-		src := printTmpl(tmpls[n])
+		s := printTmpl(tmpls[n])
 		if padded && contains(padNames, n) {
 			if tmpls[n].extends != "" {
 				// extends stays the first tag; the comment follows it
-				src = "{% extends " + q(tmpls[n].extends) + " %}" + pad + printNodes(tmpls[n].body)
+				s = "{% extends " + q(tmpls[n].extends) + " %}" + pad + printNodes(tmpls[n].body)
 			} else {
-				src = pad + src
+				s = pad + s
 			}
-			sources[n] = strings.Replace(src, pad, "{# 4100 x p #}", 1)
+			sources[n] = strings.Replace(s, pad, "{# 4100 x p #}", 1)
 		} else {
-			sources[n] = src
+			sources[n] = s
 		}
-		if err := e.RegisterString(n, src); err != nil {
+		src[n] = s
+	}
+	return names, src
+}
+
+// register prints the templates and registers them (sorted by name); "" = all of them parsed.
+func register(e *twig.Engine, tmpls map[string]*tmpl, padNames []string, padded bool, sources map[string]string) string {
+	names, src := printAll(tmpls, padNames, padded, sources)
+	for _, n := range names {
+		if err := e.RegisterString(n, src[n]); err != nil {
 			return "template " + n + " does not parse: " + err.Error()
 		}
 	}
 	return ""
+}
+
+// memLoader: a member of a chain that has the templates of src and, beside them, the templates of io - which it
+// cannot deliver (a share that is down): Exists says yes, Load fails with an error that is not "not found".
+type memLoader struct {
+	src map[string]string
+	io  map[string]bool
+}
+
+func (l *memLoader) Load(name string) (string, error) {
+	if l.io[name] {
+		return "", fmt.Errorf("reading %s: %w", name, errIO)
+	}
+	if s, ok := l.src[name]; ok {
+		return s, nil
+	}
+	return "", fmt.Errorf("%w: %s", twig.ErrTemplateNotFound, name)
+}
+func (l *memLoader) Exists(name string) bool { _, ok := l.src[name]; return ok || l.io[name] }
+
+// runTwigChainLoader: nothing is registered on the engine; its only loader is a ChainLoader arranged as ldForms[c.ld]
+// says. The members that can deliver everything they have are twig's own ArrayLoaders.
+func runTwigChainLoader(p *program, c cas) (res result, sources map[string]string) {
+	sources = map[string]string{}
+	lf := ldForms[c.ld]
+	_, _, _, reg := c.names()
+	_, src := printAll(p.w.tmpls, p.padded, c.pad, sources)
+	held := make([]map[string]string, lf.size)
+	for i := range held {
+		held[i] = map[string]string{}
+	}
+	rest := (lf.pos + 1) % lf.size
+	for n, s := range src {
+		if n == reg {
+			held[lf.pos][n] = s
+		} else {
+			held[rest][n] = s
+		}
+	}
+	for i := range held {
+		if i != lf.pos && i != rest {
+			held[i]["unrel"] = "x"
+		}
+	}
+	members := make([]twig.Loader, lf.size)
+	for i := range members {
+		members[i] = twig.NewArrayLoader(held[i])
+	}
+	switch c.target {
+	case tParseFail:
+		held[lf.pos][reg] = badSources[reg]
+		sources[reg] = badSources[reg]
+	case tIOFail:
+		members[lf.pos] = &memLoader{src: held[lf.pos], io: map[string]bool{reg: true}}
+	}
+	e := twig.New()
+	e.EnableSandbox(allowAll{})
+	e.RegisterLoader(twig.NewChainLoader(members))
+	e.AddFunction("boom", func(args ...interface{}) (interface{}, error) { return nil, errors.New("boom") })
+	return render(e, p.entry, p.ctx), sources
 }
 
 func render(e *twig.Engine, name string, vars map[string]string) result {
@@ -764,6 +853,8 @@ func runCase(c cas) *vlib.Outcome {
 			panic("harness: the model renders the earlier program without a failure")
 		}
 		earlier, got, sources = runTwigAfterFailure(p, c.pad, c.hEng == 0)
+	} else if c.ld != 0 {
+		got, sources = runTwigChainLoader(p, c)
 	} else {
 		got, sources = runTwig(p, c.pad)
 	}
@@ -791,6 +882,16 @@ func runCase(c cas) *vlib.Outcome {
 		o.Counters["relative_name"] = 1
 		if !exists && c.target != tMissing && c.opts&oI != 0 {
 			o.Counters["relative_name_unloadable_target_ignore_missing"] = 1
+		}
+	}
+	if c.ld != 0 {
+		o.Class = "chainloader/" + o.Class
+		o.Counters["behind_chain_loader"] = 1
+		if !exists && c.target != tMissing && c.opts&oI != 0 {
+			o.Counters["behind_chain_loader_unloadable_target_ignore_missing"] = 1
+			if ldForms[c.ld].pos < ldForms[c.ld].size-1 {
+				o.Counters["behind_chain_loader_unloadable_target_ignore_missing_not_last_member"] = 1
+			}
 		}
 	}
 	if c.mdef != 0 {
@@ -852,6 +953,19 @@ func runCase(c cas) *vlib.Outcome {
 			state = "the loader fails for " + reg + " with an I/O error"
 		}
 		o.Violation += fmt.Sprintf("\n  relative name %s written in a template of directory %q: %s; nothing is registered under the name as written", relForms[c.rel].written+targetName[c.target], relForms[c.rel].holderDir, state)
+	}
+	if c.ld != 0 {
+		lf := ldForms[c.ld]
+		state := "holds " + reg
+		switch c.target {
+		case tMissing:
+			state = "would hold " + reg + ", which no member has"
+		case tParseFail:
+			state = "holds " + reg + ", which does not parse"
+		case tIOFail:
+			state = "has " + reg + " (Exists: true) and fails to load it with an I/O error"
+		}
+		o.Violation += fmt.Sprintf("\n  nothing is registered on the engine; its only loader is a ChainLoader of %d member(s): member %d %s, member %d holds every other template", lf.size, lf.pos+1, state, (lf.pos+1)%lf.size+1)
 	}
 	o.Violation += fmt.Sprintf("\n  context: %v", p.ctx)
 	o.Violation += history
@@ -1052,6 +1166,50 @@ func enumerate(t *vlib.T) {
 				}
 			}
 		}
+	}
+	// 1l. behind a ChainLoader: nothing is registered on the engine, its only loader is a ChainLoader of 1-3 members;
+	// the member that has the target - fine, extending, failing at render, not parsing, failing to load with an I/O
+	// error, including a missing template; or no member has it - is first, in the middle or last; every option set,
+	// name form (also relative names) and placement. Only a target no member has may be swallowed by `ignore missing`.
+	lb := struct {
+		rels []int
+		pads []bool
+	}{rels: []int{0, 2}, pads: []bool{false}}
+	if t.Thorough() {
+		lb.rels, lb.pads = []int{0, 1, 2, 3, 4, 5, 6}, []bool{false, true}
+	}
+	for ld := 1; ld < len(ldForms); ld++ {
+		for _, rel := range lb.rels {
+			names := failNames
+			if rel != 0 {
+				names = rb.names
+			}
+			for target := 0; target < nTargets; target++ {
+				for _, x := range ows {
+					if !((x.withMask == 0 || x.withMask == 3) && (x.wstyle == 0 || x.wstyle == 2)) { // as in 1.
+						continue
+					}
+					for _, nm := range names {
+						for place := 0; place < nPlaces; place++ {
+							for _, pd := range lb.pads {
+								if t.Stopped() {
+									return
+								}
+								c := cas{target: target, opts: x.opts, withMask: x.withMask, wstyle: x.wstyle, name: nm, place: place, incMask: 3, pad: pd, rel: rel, ld: ld}
+								if target == tPlain || target == tExtends {
+									c.setMask = 15
+								}
+								emit(c)
+							}
+						}
+					}
+				}
+			}
+		}
+	}
+	// 1n. null bindings in intermediate scopes of an include chain (nullchain.go)
+	if !enumerateNullChains(t) {
+		return
 	}
 	// 1a. history: a render that fails inside an include (every kind x options of the failing include x same /
 	// other engine) comes first, then an ordinary case of the grid: every option set and with-map shape, at a
@@ -1307,12 +1465,19 @@ func main() {
 			"has its own m (macro called as _self.m(), or from-imported and called as m()) and its own module u and calls m and u.f after the include (in every loop iteration, in the block, after the macro call, in the parent after the overridden block) - every option set, every placement, every chain shape; " +
 			"relative-name dimension: the tag names its target as ./x, ../x, ./d/x or ../../x from a template at top level, in a sub-directory or in a sub-sub-directory (six forms; in the nested routes the template in the middle holds the tag and lives in another directory than the entry point), " +
 			"the template the name denotes relative to the tag's template being fine (plain / extending), missing, failing at render, unparsable, unloadable (loader I/O error) or including a missing template, nothing being registered under the name as written - every option set, name form, placement and tokenizer; only a missing target may be swallowed by ignore missing; " +
+			"chain-loader dimension: nothing is registered on the engine, whose only loader is a twig.ChainLoader of 1-3 members; exactly one member has the target (fine, extending, failing at render, unparsable, failing to load with an I/O error, including a missing template; for a missing target no member has it) " +
+			"and stands first, in the middle or last, another member holds all other templates - every target kind, option set, name form (also relative names), placement; only a target that no member has may be swallowed by ignore missing; " +
+			"null-chain family: include chains n0 -> … -> n3 of depth 1-3 in which x is bound to null on the way (with {'x': null}, with {'x': undefined_name}, set x = null, a loop variable iterating over [null, 'F']) at every level, " +
+			"while the outermost x comes from the render context, a set or a loop variable of n0 (or is absent), crossed with every combination of plain / with / sandboxed / only includes below and of set / for statements in the templates in the middle; every template prints x, its truth value, y and i before and after its include and must see exactly what the model says " +
+			"(non-trivial when a template at least one include below the null binding reads x while a non-null x exists further out); " +
 			"a case is non-trivial when information could flow in either direction (the includer defines a variable, `with` passes one, the included template sets one, runs a loop " +
 			"or defines a block/macro/import, also one with the name of a block of the includer's extends chain or of a macro / module of the includer) or when the target cannot be rendered (missing / failing), which exercises the missing-template handling; a history case is always non-trivial (the earlier render defined a-d and passed a-d to the failing include)",
 		Assumptions: []string{
 			"the reference model (checks/c11/model.go) is a correct transcription of the property statement",
 			"visibility of outer variables and macros inside macros, option orders other than `ignore missing` `with` `only` `sandboxed`, `with` followed by a non-literal, and the value of loop variables after endfor are not fixed by the statement and are not generated",
 			"an include name that starts with ./ or ../ denotes the template at that path relative to the directory of the template the tag is written in (the repository's relative_path_test.go; confirmed by the fine-target cases of the relative-name dimension); what a template registered under the name as written would mean is not generated",
+			"a variable bound to null prints as nothing and is false in `if` (like an undefined one); whether `is defined` tells the two apart is not asked",
+			"behind a ChainLoader exactly one member has a given template; what a chain should do when an earlier member fails for a template that a later member could deliver is not generated",
 			"the sandbox policy allows everything here (confinement is C06); sandboxed is exercised only as a context-construction path",
 		},
 		QuickDeadline: 100, ThoroughDeadline: 840,
